@@ -231,10 +231,14 @@ impl Nd {
 #[macro_export]
 macro_rules! cover {
     ($nd:expr, $cond:expr, $msg:literal) => {{
-        #[cfg(kani)]
+        #[cfg(all(kani, not(verif_nocover)))]
         {
             let _ = &$nd;
             kani::cover!($cond, $msg);
+        }
+        #[cfg(all(kani, verif_nocover))]
+        {
+            let _ = (&$nd, $cond);
         }
         #[cfg(not(kani))]
         {
@@ -243,4 +247,13 @@ macro_rules! cover {
             }
         }
     }};
+}
+
+/// End the exploration of the current path (bound of the harness reached): `assume(false)` under
+/// Kani, a rejected script natively.
+pub fn cut_path() {
+    #[cfg(kani)]
+    kani::assume(false);
+    #[cfg(not(kani))]
+    std::panic::panic_any(Rejected);
 }
